@@ -1559,6 +1559,12 @@ impl CanonicalizeContext {
 				return None;
 			}
 
+			let parent = get_parent(leaf);
+			let parent_name = name(&parent);
+			if ELEMENTS_WITH_FIXED_NUMBER_OF_CHILDREN.contains(parent_name) || parent_name == "mmultiscripts" {
+				return None;		// can't remove the following sibling
+			}
+
 			let following_siblings = leaf.following_siblings();
 			if following_siblings.is_empty() {
 				return None;
@@ -1593,6 +1599,12 @@ impl CanonicalizeContext {
 				return Some(leaf);
 			} else if leaf_text != "|" {
 				return None;
+			}
+
+			let parent = get_parent(leaf);
+			let parent_name = name(&parent);
+			if ELEMENTS_WITH_FIXED_NUMBER_OF_CHILDREN.contains(parent_name) || parent_name == "mmultiscripts" {
+				return None;		// can't remove the following sibling
 			}
 			let following_siblings = leaf.following_siblings();
 			if following_siblings.is_empty() {
